@@ -73,7 +73,7 @@ theorem op_doc_case (c : Ctx) (root : Val) (env : Env) (hr : EnvRel c root env) 
                 · rw [if_pos hao] at hre hres
                   obtain ⟨h1, h2⟩ := append_nil2 hre
                   exact andor_bare c root env hr k hao (.doc gs) hsub.self rfl h1 h2 res hres
-                · rw [if_neg hao] at hre; simp at hre
+                · rw [if_neg hao] at hre; split at hre <;> simp at hre
 
 theorem sOperator_many (root : Val) (env : Env) (a b : String × Val) (r : Fields) :
     sOperator root env (a :: b :: r) = .error .opFail := by
